@@ -63,9 +63,24 @@ AFF = {
 }
 
 
-def mk_gate(name, theta=None):
+CONTROLLED = ("crx", "cry", "crz", "cp", "cs", "csdg", "csx", "cx", "cy", "cz", "ch")
+
+
+def theta_arg(theta, form):
+    """The object handed to the gate constructor; the case records float(<that object>) as theta."""
+    if form == "int":
+        return int(theta)
+    if form == "float32":
+        return np.float32(theta)
+    return theta
+
+
+def mk_gate(name, theta=None, form=None, ctrl0=False):
+    kw = dict(ctrl_state=0) if ctrl0 else {}
     if name in PARAM:
-        return PARAM[name](theta)
+        return PARAM[name](theta_arg(theta, form), **kw)
+    if ctrl0:
+        return {"cs": CSGate, "csdg": CSdgGate, "csx": CSXGate, "cx": CXGate, "cy": CYGate, "cz": CZGate, "ch": CHGate}[name](**kw)
     return FIXED[name]()
 
 
@@ -230,6 +245,19 @@ def near_grid(per_k, shift=0):
     return out
 
 
+def near_grid48(rng, n):
+    """theta = k*pi/4 (k odd) or k*pi/8 (k odd) + delta: the CS/T-like points of the rotation families."""
+    out = []
+    for i in range(n):
+        if i % 2 == 0:
+            base = (2 * int(rng.integers(-16, 16)) + 1) * PI / 4
+        else:
+            base = (2 * int(rng.integers(-32, 32)) + 1) * PI / 8
+        out.append(base)
+        out.append(base + NEAR_DELTAS[int(rng.integers(0, len(NEAR_DELTAS)))])
+    return out
+
+
 def random_angles(rng, n):
     return [float(rng.uniform(-8 * PI, 8 * PI)) for _ in range(n)]
 
@@ -256,7 +284,7 @@ def mat_of(j):
 
 
 def run_named(case):
-    g = mk_gate(case["name"], case.get("theta"))
+    g = mk_gate(case["name"], case.get("theta"), case.get("form"))
     b = QPDBasis.from_instruction(g)
     case["impl"] = observe(b)
     return case
@@ -272,6 +300,8 @@ def kak_gate(case):
         return XXMinusYYGate(case["theta"], case["beta"]).to_matrix()
     if kind == "unitary":
         return mat_of(case["matrix"])
+    if kind == "open":
+        return Operator(mk_gate(case["name"], case.get("theta"), ctrl0=True)).data
     if kind == "conj":
         G = Operator(mk_gate(case["name"], case.get("theta"))).data
         L1, L2 = mat_of(case["left"]), mat_of(case["right"])
@@ -291,11 +321,16 @@ def run_kak(case):
     elif kind == "xx_minus_yy":
         b = QPDBasis.from_instruction(XXMinusYYGate(case["theta"], case["beta"]))
         mat = XXMinusYYGate(case["theta"], case["beta"]).to_matrix()
+    elif kind == "open":  # a real Gate class whose name (cx_o0, crz_o0, ...) is not registered
+        mat = kak_gate(case)
+        b = QPDBasis.from_instruction(mk_gate(case["name"], case.get("theta"), ctrl0=True))
     else:
         mat = kak_gate(case)
         b = QPDBasis.from_instruction(UnitaryGate(mat, check_input=False))
     case["impl"] = observe(b)
-    case["oracle"] = _rec_info(mat)
+    # the harness' own instrumentation; if the implementation no longer goes through the two wrapped calls this is a
+    # harness problem (contract `harness hook`), never a verdict about the implementation
+    case["oracle"] = _rec_info(mat) if ("d" in REC and "u" in REC and "theta" in REC) else None
     if case.get("twin") is not None:  # a second, locally equivalent gate: kappa must agree
         m2 = mat_of(case["twin"]["left"]) @ mat @ mat_of(case["twin"]["right"])
         b2 = QPDBasis.from_instruction(UnitaryGate(m2, check_input=False))
@@ -310,11 +345,24 @@ def build_maps(arities):
     return [tuple([YGate()] if (i + j) % 2 else [] for j in range(a)) for i, a in enumerate(arities)]
 
 
+def in_container(vec, kind):
+    if kind == "tuple":
+        return tuple(vec)
+    if kind == "ndarray":
+        return np.array(vec, dtype=float)
+    if kind == "int" and all(float(x).is_integer() for x in vec):
+        return [int(x) for x in vec]
+    if kind == "intarray" and all(float(x).is_integer() for x in vec):
+        return np.array([int(x) for x in vec])
+    return list(vec)
+
+
 def run_basis(case):
     steps = []
     maps = build_maps(case["arities"])
+    cont = case.get("containers") or ["list"] * (1 + len(case["ops"]))
     try:
-        b = QPDBasis(maps, list(case["c0"]))
+        b = QPDBasis(maps, in_container(case["c0"], cont[0]))
     except ValueError as e:
         case["impl"] = [dict(refused=True, obs=None, msg=str(e)[:120])]
         return case
@@ -322,9 +370,9 @@ def run_basis(case):
         case["impl"] = [dict(refused=False, obs=None, crashed=f"{type(e).__name__}: {e}"[:160])]
         return case
     steps.append(dict(refused=False, obs=observe(b)))
-    for c in case["ops"]:
+    for ci, c in enumerate(case["ops"]):
         try:
-            b.coeffs = list(c)
+            b.coeffs = in_container(c, cont[1 + ci])
             steps.append(dict(refused=False, obs=observe(b)))
         except ValueError as e:
             steps.append(dict(refused=True, obs=observe(b), msg=str(e)[:120]))
@@ -346,7 +394,8 @@ def run_sequence(case):
     """Build basis A, read it, edit A.coeffs[k] in place, reassign A.coeffs through the setter, then build the
     target bases afresh.  The in-place edit is undone at the end (on the very list object that was edited)."""
     sc = case["script"]
-    a = QPDBasis.from_instruction(mk_gate(sc["a_name"], sc["a_theta"]))
+    gate_a = mk_gate(sc["a_name"], sc["a_theta"])
+    a = QPDBasis.from_instruction(gate_a)
     before = observe(a)
     lst = a.coeffs
     inplace, old = "no", None
@@ -354,19 +403,29 @@ def run_sequence(case):
         old = lst[sc["k"]]
         lst[sc["k"]] = sc["x"]
         inplace = "edited"
-    except TypeError:
-        inplace = "immutable"
     except IndexError:
         inplace = "index"
+    except Exception:  # noqa: BLE001  tuple (TypeError), read-only array (ValueError), ...: the container is immutable
+        inplace = "immutable"
     try:
         a.coeffs = list(sc["newvec"])
         reassigned = _try_obs(lambda: a)
-        fresh = [_try_obs(lambda t=t: QPDBasis.from_instruction(mk_gate(t["name"], t["theta"]))) for t in case["targets"]]
+        # a wrong-length assignment afterwards must raise ValueError and change nothing
+        refused = None
+        try:
+            a.coeffs = list(sc["newvec"]) + [1.0]
+            refused = dict(refused=False, obs=_try_obs(lambda: a))
+        except ValueError:
+            refused = dict(refused=True, obs=_try_obs(lambda: a))
+        except Exception as e:  # noqa: BLE001
+            refused = dict(refused=False, obs=dict(crashed=f"{type(e).__name__}: {str(e)[:160]}"))
+        fresh = [_try_obs(lambda t=t: QPDBasis.from_instruction(gate_a if t.get("same_instance") else mk_gate(t["name"], t["theta"])))
+                 for t in case["targets"]]
     finally:
         if inplace == "edited":
             lst[sc["k"]] = old
     case = dict(case)
-    case["impl"] = dict(before=before, inplace=inplace, reassigned=reassigned, fresh=fresh)
+    case["impl"] = dict(before=before, inplace=inplace, reassigned=reassigned, refused=refused, fresh=fresh)
     return case
 
 
@@ -382,7 +441,7 @@ def rand_local(rng):
 def dyadic_vec(rng, n):
     assert n > 0
     while True:
-        m = int(rng.integers(0, 11))
+        m = int(rng.integers(0, 11)) if rng.integers(0, 3) else 0
         v = [int(rng.integers(-1023, 1024)) / (1 << m) if rng.integers(0, 6) else 0.0 for _ in range(n)]
         if any(x != 0 for x in v):
             return v
@@ -396,28 +455,41 @@ def generate(rng, tier, outdir):
     n_rand = 14 if quick else 400
     n_circ = 10 if quick else 300
 
+    def jc(case, hist):
+        """property-level oracle on every generated case; on the unchanged tree it must accept all of them"""
+        v = judge(case)
+        w.count(hist, "violates" if v["violates"] else "ok")
+        w.contract("judge_accepts_clean_case", not v["violates"])
+        return v
+
     # ---------------- named ----------------
-    def add_named(name, theta, c, s, sub):
-        case = guarded(run_named, dict(kind="named", name=name, theta=theta, sub=sub))
+    def add_named(name, theta, c, s, sub, form=None):
+        case = guarded(run_named, dict(kind="named", name=name, theta=theta, sub=sub, form=form))
         aff = AFF.get(name)
         w.add("named", "chk_named",
               (Raw(f'"{name}"'), Opt((Qc(aff[0]), Qc(aff[1]))) if aff else Opt(None), qq(c), qq(s), coq_obs(case["impl"])),
               case, nontrivial=(name in PARAM), key=(name, theta))
         w.count("named.name", name)
         w.count("named.sub", sub)
-        v = judge(case)
-        w.count("named.judge", "violates" if v["violates"] else "ok")
+        jc(case, "named.judge")
 
     for ni, name in enumerate(PARAM):
         p, _ = AFF[name]
         # the structured near-special grid first: should the model be unusable (a fact could not be extracted),
         # the first judged mismatches are then the informative ones
         angles = [(t, "neargrid") for t in near_grid(4 if quick else 12, shift=5 * ni)] \
+            + [(t, "neargrid48") for t in near_grid48(rng, 6 if quick else 60)] \
             + [(t, "near") for t in near_special(rng, n_near)] \
             + [(t, "random") for t in random_angles(rng, n_rand)] + [(t, "special") for t in special_angles()]
         for theta, sub in angles:
             tp = theta_prime(name, theta)
             add_named(name, theta, fr(math.cos(tp)), fr(math.sin(tp)), sub)
+        # other forms of the angle argument: int, numpy.float32 (theta of the case = float(argument))
+        forms = [(float(k), "int") for k in ([-7, 0, 1, 3] if quick else range(-25, 26))] \
+            + [(float(np.float32(t)), "float32") for t in random_angles(rng, 3 if quick else 40)]
+        for theta, form in forms:
+            tp = theta_prime(name, theta)
+            add_named(name, theta, fr(math.cos(tp)), fr(math.sin(tp)), form, form=form)
         for _ in range(n_circ):
             c, s = circle_point(rng)
             m = int(rng.integers(-1, 2)) if abs(p) == Fraction(1, 4) else int(rng.integers(-3, 4))
@@ -440,64 +512,88 @@ def generate(rng, tier, outdir):
             w.add("kak", "chk_kak", ([], [], [], [], BAD_OBS), dict(case, kind="kak"), nontrivial=False,
                   key=("kak", len(w.groups.get("kak", {}).get("cases", []))))
             w.count("kak.gate", "crashed")
+            jc(dict(case, kind="kak"), "kak.judge")
             return case
         info = case["oracle"]
-        w.add("kak", "chk_kak", coq_kak_case(info, case["impl"]), dict(case, kind="kak"),
-              nontrivial=True, key=("kak", len(w.groups.get("kak", {}).get("cases", []))))
-        w.contract("O-KAK: K1 exp(i(aXX+bYY+cZZ)) K2 reproduces the gate (1e-9)", info["recon_err"] <= 1e-9)
-        w.contract("O-KAK: coordinates passed on unchanged", info["theta_passed"] == info["abc"])
+        w.contract("harness hook: TwoQubitWeylDecomposition and _u_from_thetavec calls of the KAK path were recorded", info is not None)
         w.count("kak.gate", case["gate"])
+        if info is not None:
+            w.add("kak", "chk_kak", coq_kak_case(info, case["impl"]), dict(case, kind="kak"),
+                  nontrivial=True, key=("kak", len(w.groups.get("kak", {}).get("cases", []))))
+            w.contract("O-KAK: K1 exp(i(aXX+bYY+cZZ)) K2 reproduces the gate (1e-9)", info["recon_err"] <= 1e-9)
+            w.contract("O-KAK: coordinates passed on unchanged", info["theta_passed"] == info["abc"])
+            jc(dict(case, kind="kak"), "kak.judge")
         if fam_kind is not None:
-            a, b, c = info["abc"]
+            a, b, c = info["abc"] if info is not None else (float("nan"),) * 3
             if fam_kind == 0:
                 ok = abs(b) <= 1e-9 and abs(c) <= 1e-9 and abs(abs(math.sin(2 * a)) - abs(fam_sin)) <= 1e-9
             else:
                 ok = abs(a - b) <= 1e-9 and abs(c) <= 1e-9 and abs(abs(math.sin(2 * a)) - abs(fam_sin)) <= 1e-9
-            w.contract("O-KAK: Weyl coordinates of rzx / xx_plus_yy / xx_minus_yy as documented", ok)
+            if info is not None:
+                w.contract("O-KAK: Weyl coordinates of rzx / xx_plus_yy / xx_minus_yy as documented", ok)
             fc = dict(case, kind="kakfam")
             kq = qf(case["impl"]["kappa"]) if math.isfinite(case["impl"]["kappa"]) else Raw("(fl 0 0)")
             w.add("kakfam", "chk_kak_family", (fam_kind, qf(fam_sin), kq), fc,
                   nontrivial=True, key=repr((case["gate"], case["theta"], case.get("beta"))))
-            w.count("kakfam.judge", "violates" if judge(fc)["violates"] else "ok")
+            jc(fc, "kakfam.judge")
         return case
 
     rzx_angles = special_angles() + near_special(rng, 16 if quick else 200) + random_angles(rng, 20 if quick else 400) \
         + [7e-5, -1e-5, PI + 3e-5, 2 * PI - 5e-5]
-    for theta in rzx_angles:
-        add_kak(dict(gate="rzx", theta=theta), 0, math.sin(theta))
+    def maybe_twin(i):
+        return dict(left=mat_json(rand_local(rng)), right=mat_json(rand_local(rng))) if i % 6 == 0 else None
+
+    for i, theta in enumerate(rzx_angles):
+        add_kak(dict(gate="rzx", theta=theta, twin=maybe_twin(i)), 0, math.sin(theta))
     betas = [0.0, PI / 2, -PI / 2, PI, 0.7, -2.3]
     xx_angles = special_angles()[::2] + near_special(rng, 8 if quick else 120) + random_angles(rng, 14 if quick else 300) \
         + [1e-5, 4 * PI - 3e-5]
-    for theta in xx_angles:
+    for i, theta in enumerate(xx_angles):
         for gate in ("xx_plus_yy", "xx_minus_yy"):
             beta = float(rng.choice(betas)) if rng.integers(0, 2) else float(rng.uniform(-8 * PI, 8 * PI))
-            add_kak(dict(gate=gate, theta=theta, beta=beta), 1, math.sin(theta / 2))
+            if rng.integers(0, 5) == 0:
+                beta = float(rng.choice(betas)) + float(rng.choice(NEAR_DELTAS))
+            add_kak(dict(gate=gate, theta=theta, beta=beta, twin=maybe_twin(i)), 1, math.sin(theta / 2))
 
-    # ---------------- local conjugations of registered gates ----------------
+    # ---------------- local conjugations of registered gates; open-controlled real gates ----------------
+    def add_equiv(case, name, theta, key):
+        """a gate locally equivalent to registered <name>(theta), sent through the KAK path"""
+        case = add_kak(case)
+        if name in AFF:
+            tp = theta_prime(name, theta)
+            c, s = fr(math.cos(tp)), fr(math.sin(tp))
+        else:
+            c, s = Fraction(0), Fraction(0)
+        cc = dict(case, kind="conj")
+        if "crashed" in case["impl"] or not math.isfinite(case["impl"]["kappa"]):
+            return  # already recorded (and judged) in the kak group
+        w.add("conj", "chk_conj", (Raw(f'"{name}"'), qq(c), qq(s), qf(case["impl"]["kappa"])), cc, nontrivial=True, key=key)
+        w.count("conj.name", name)
+        w.count("conj.form", case["gate"] + ("/identity" if case.get("identity") else ""))
+        jc(cc, "conj.judge")
+
+    def conj_theta(name):
+        if name not in PARAM:
+            return None
+        mode = int(rng.integers(0, 4))
+        return [float(rng.uniform(-8 * PI, 8 * PI)), float(rng.choice(special_angles())),
+                near_special(rng, 1)[0], float(rng.uniform(-1, 1))][mode]
+
     conj_names = [n for n in list(PARAM) + list(FIXED) if n != "move"]
     reps = 2 if quick else 12
+    eye = mat_json(np.eye(4))
     for name in conj_names:
         for r in range(reps):
-            theta = None
-            if name in PARAM:
-                mode = int(rng.integers(0, 4))
-                theta = [float(rng.uniform(-8 * PI, 8 * PI)), float(rng.choice(special_angles())),
-                         near_special(rng, 1)[0], float(rng.uniform(-1, 1))][mode]
-            left, right = rand_local(rng), rand_local(rng)
-            case = dict(gate="conj", name=name, theta=theta, left=mat_json(left), right=mat_json(right))
-            case = add_kak(case)
-            if name in AFF:
-                tp = theta_prime(name, theta)
-                c, s = fr(math.cos(tp)), fr(math.sin(tp))
-            else:
-                c, s = Fraction(0), Fraction(0)
-            cc = dict(case, kind="conj")
-            if "crashed" in case["impl"] or not math.isfinite(case["impl"]["kappa"]):
-                continue  # already recorded (and judged) in the kak group
-            w.add("conj", "chk_conj", (Raw(f'"{name}"'), qq(c), qq(s), qf(case["impl"]["kappa"])), cc,
-                  nontrivial=True, key=repr((name, theta, r)))
-            w.count("conj.name", name)
-            w.count("conj.judge", "violates" if judge(cc)["violates"] else "ok")
+            theta = conj_theta(name)
+            add_equiv(dict(gate="conj", name=name, theta=theta, left=mat_json(rand_local(rng)), right=mat_json(rand_local(rng))),
+                      name, theta, repr((name, theta, r)))
+        if not quick or rng.integers(0, 3) == 0:   # the registered matrix itself, as a UnitaryGate
+            theta = conj_theta(name)
+            add_equiv(dict(gate="conj", name=name, theta=theta, left=eye, right=eye, identity=True), name, theta, repr((name, theta, "id")))
+    for name in CONTROLLED:                          # cx_o0, crz_o0, ...: not registered, locally equivalent to <name>
+        for r in range(1 if quick else 6):
+            theta = conj_theta(name)
+            add_equiv(dict(gate="open", name=name, theta=theta), name, theta, repr((name, theta, "open", r)))
 
     # ---------------- Haar-random unitaries with a locally equivalent twin ----------------
     for _ in range(25 if quick else 400):
@@ -508,21 +604,20 @@ def generate(rng, tier, outdir):
         case = add_kak(case)
         if "crashed" in case["impl"]:
             continue
-        w.count("kak.twin.judge", "violates" if judge(dict(case, kind="kak"))["violates"] else "ok")
 
     # ---------------- basis invariants ----------------
     n_basis = 260 if quick else 4000
     for _ in range(n_basis):
         mode = int(rng.integers(0, 12))
         n = int(rng.integers(1, 9))
-        a = int(rng.integers(1, 3))
+        a = int(rng.integers(1, 3)) if rng.integers(0, 12) else 0   # 0-tuples are accepted by the source (and the model)
         arities = [a] * n
         if mode == 0:
             arities = []
         elif mode == 1:
             arities = [3] * n
         elif mode == 2 and n >= 2:
-            arities[int(rng.integers(1, n))] = 3 - a
+            arities[int(rng.integers(1, n))] = (3 - a) if a else 1
         n_eff = len(arities)
         if n_eff == 0:
             c0 = dyadic_vec(rng, int(rng.integers(1, 4))) if rng.integers(0, 2) else []
@@ -533,7 +628,10 @@ def generate(rng, tier, outdir):
             good = rng.integers(0, 4) != 0
             ln = n_eff if good else max(0, n_eff + int(rng.choice([-1, 1, 3])))
             ops.append(dyadic_vec(rng, ln) if ln > 0 else [])
-        case = run_basis(dict(kind="basis", arities=arities, c0=c0, ops=ops))
+        containers = [str(rng.choice(["list", "list", "tuple", "ndarray", "int", "intarray"])) for _ in range(1 + len(ops))]
+        case = run_basis(dict(kind="basis", arities=arities, c0=c0, ops=ops, containers=containers))
+        for cn in containers:
+            w.count("basis.container", cn)
         steps = case["impl"]
         crashed = any("crashed" in s for s in steps)
         os_ = []
@@ -546,7 +644,7 @@ def generate(rng, tier, outdir):
         w.count("basis.first", "crashed" if crashed else ("refused" if steps[0]["refused"] else "ok"))
         w.count("basis.n_ops", len(ops))
         w.count("basis.refused_reassignments", sum(1 for s in steps[1:] if s["refused"]))
-        w.count("basis.judge", "violates" if judge(case)["violates"] else "ok")
+        jc(case, "basis.judge")
 
     # ---------------- sequences: edits of one basis must not leak into fresh bases ----------------
     # (last stream; every script undoes its in-place edit, so a list shared by a mutated tree is repaired)
@@ -562,24 +660,29 @@ def generate(rng, tier, outdir):
         others = [str(n) for n in rng.choice([n for n in all_names if n != a_name], size=2, replace=False)]
         fam = [n for n in ("cx", "cy", "cz", "ch", "ecr") if n != a_name] if a_name in ("cx", "cy", "cz", "ch", "ecr") else []
         targets = [a_name] + others + fam[:2]
-        res = guarded(run_sequence, dict(kind="seq", script=script,
-                                         targets=[dict(name=t, theta=(a_theta if t == a_name else (float(rng.uniform(-8 * PI, 8 * PI)) if t in PARAM else None)))
-                                                  for t in targets]))
+        tlist = [dict(name=t, theta=(a_theta if t == a_name else (float(rng.uniform(-8 * PI, 8 * PI)) if t in PARAM else None)))
+                 for t in targets]
+        tlist.insert(1, dict(name=a_name, theta=a_theta, same_instance=True))   # the very gate object A was built from
+        res = guarded(run_sequence, dict(kind="seq", script=script, targets=tlist))
         if "crashed" in res.get("impl", {}):
-            w.add("sequence.reassigned", "chk_basis", ([2], [qf(1.0)], [], [(False, Opt(BAD_OBS))]),
-                  dict(res, kind="seq_reassigned"), nontrivial=False)
+            cr = dict(res, kind="seq_reassigned")
+            w.add("sequence.reassigned", "chk_basis", ([2], [qf(1.0)], [], [(False, Opt(BAD_OBS))]), cr, nontrivial=False)
             w.count("sequence.outcome", "crashed")
+            jc(cr, "sequence.judge")
             continue
         w.count("sequence.outcome", "ok")
         w.count("sequence.inplace", res["impl"]["inplace"])
         # A after the setter: exact comparison with the model of the setter
         ra = dict(kind="seq_reassigned", script=script, impl=res["impl"]["reassigned"])
         oa = res["impl"]["reassigned"]
+        rf = res["impl"]["refused"]
+        ra["refused"] = rf
         w.add("sequence.reassigned", "chk_basis",
-              ([2] * ncoef, [qf(x) for x in script["newvec"]], [],
-               [(False, Opt(coq_obs(oa)))] if "crashed" not in oa else [(False, Opt(BAD_OBS))]),
+              ([2] * ncoef, [qf(x) for x in script["newvec"]], [[qf(x) for x in script["newvec"]] + [qf(1.0)]],
+               [(False, Opt(coq_obs(oa))), (bool(rf["refused"]), Opt(coq_obs(rf["obs"])))]),
               ra, nontrivial=True)
-        w.count("sequence.judge", "violates" if judge(ra)["violates"] else "ok")
+        w.count("sequence.refused_after", "refused" if rf["refused"] else "accepted-or-crashed")
+        jc(ra, "sequence.judge")
         # fresh bases built afterwards
         for tgt, o in zip(res["targets"], res["impl"]["fresh"]):
             name, theta = tgt["name"], tgt["theta"]
@@ -594,7 +697,8 @@ def generate(rng, tier, outdir):
                   (Raw(f'"{name}"'), Opt((Qc(aff[0]), Qc(aff[1]))) if aff else Opt(None), qq(c), qq(s_), coq_obs(o)),
                   fcase, nontrivial=True, key=("seqfresh", it, name))
             w.count("sequence.fresh.name", name)
-            w.count("sequence.judge", "violates" if judge(fcase)["violates"] else "ok")
+            w.count("sequence.fresh.same_instance", bool(tgt.get("same_instance")))
+            jc(fcase, "sequence.judge")
 
     return w.finish(
         rule="coefficients, kappa, probabilities, overhead of the implementation compared inside Coq (Q arithmetic, 1e-12 / 1e-11 on "
@@ -648,6 +752,23 @@ def invariants(o, where=""):
     return bad
 
 
+_PAULI2 = [np.eye(4, dtype=complex), _XX, _YY, _ZZ]
+
+
+def kappa_from_weyl(a, b, c):
+    """kappa of the KAK-path basis computed from the Weyl coordinates alone: N = exp(i(aXX+bYY+cZZ)) = sum_k u_k P_k (x) P_k,
+    u_k = tr(P_k P_k N)/4, kappa = sum|u_k|^2 + 4 sum_{j<k} (|Re u_j conj u_k| + |Im u_j conj u_k|)   [Eq. (19) of the
+    reference the package follows, absolute values summed]."""
+    N = _exp_nonlocal(a, b, c)
+    u = [np.trace(P @ N) / 4 for P in _PAULI2]
+    k = sum(abs(z) ** 2 for z in u)
+    for j in range(4):
+        for l in range(j + 1, 4):
+            z = u[j] * np.conj(u[l])
+            k += 4 * (abs(z.real) + abs(z.imag))
+    return float(k)
+
+
 def judge(case):
     kind = case.get("kind")
     bad = []
@@ -658,6 +779,14 @@ def judge(case):
         bad += invariants(o, where="after reassigning coeffs: ")
         if not bad and [float(x) for x in o["coeffs"]] != [float(x) for x in case["script"]["newvec"]]:
             bad.append("coeffs after assignment differ from the assigned vector")
+        rf = case.get("refused")
+        if rf is not None and not bad:
+            if "crashed" in rf["obs"]:
+                bad.append(f"after a wrong-length assignment: {rf['obs']['crashed']}")
+            else:
+                bad += invariants(rf["obs"], where="after a wrong-length assignment: ")
+                if rf["refused"] and rf["obs"] != o:
+                    bad.append("a refused (ValueError) assignment changed coeffs/kappa/probabilities/overhead")
     elif kind in ("named", "seq_fresh"):
         o = case["impl"]
         want = closed_form(case["name"], case.get("theta") or 0.0)
@@ -680,6 +809,12 @@ def judge(case):
             bad.append(f"kappa of {g}{'/' + case['name'] if g == 'conj' else ''}(theta={case.get('theta')!r}"
                        f"{', beta=' + repr(case.get('beta')) if case.get('beta') is not None else ''}) through the KAK path = "
                        f"{o['kappa']!r}, documented closed form {want!r} (Weyl coordinates returned: {case.get('oracle', {}).get('abc')})")
+        orc = case.get("oracle")
+        if orc is not None and orc.get("recon_err", 1) <= 1e-9:
+            ki = kappa_from_weyl(*orc["abc"])
+            if abs(o["kappa"] - ki) > 1e-9:
+                bad.append(f"kappa {o['kappa']!r} of a gate with Weyl coordinates {orc['abc']} differs from the value {ki!r} "
+                           f"that these coordinates determine")
         if case.get("twin") is not None and abs(case["twin"]["kappa"] - o["kappa"]) > 1e-9:
             bad.append(f"locally equivalent gates have kappa {o['kappa']!r} and {case['twin']['kappa']!r}")
         if o["kappa"] < 1 - 1e-12:
@@ -720,6 +855,8 @@ def rerun(case):
     if kind == "seq_reassigned":
         r = guarded(run_sequence, dict(script=case["script"], targets=[]))
         case["impl"] = r["impl"] if "crashed" in r["impl"] else r["impl"]["reassigned"]
+        if "crashed" not in r["impl"]:
+            case["refused"] = r["impl"]["refused"]
         return case
     raise ValueError(kind)
 
